@@ -888,8 +888,8 @@ def convert_to(I, st, v, ty, ctx):
     t = I.f.types[ty] if ty is not None else None
     if t is None:
         return [(st, VOpaque("into"))]
-    if t["k"] == "int" and isinstance(v, VInt):
-        return [(st, I.cast(st, "IntToInt", v, ty))]
+    if t["k"] == "int" and isinstance(v, (VInt, VBool)):
+        return [(st, I.cast(st, "IntToInt", v, ty))]      # uN::from(bool) is `b as uN`
     if t["k"] == "float" and isinstance(v, VInt):
         return [(st, I.cast(st, "IntToFloat", v, ty))]      # f32::from(u16) is the lossless `as f32`
     if t["k"] == "char" and isinstance(v, VInt) and v.w == 8 and not v.s:
@@ -3395,3 +3395,22 @@ def h_collect(I, st, callee, target, args, ctx):
             return []
         return [(st, VSeq(("slice", sl.buf, start, n), cap))]
     raise Unanalysable("collect into %s" % t.get("text", t["def"]))
+
+
+@ext("heapless:Vec<T, N>::capacity")
+def h_heapless_capacity(I, st, callee, target, args, ctx):
+    v = deref(I, st, args[0])
+    cap = getattr(v, "cap", None)
+    if cap is None:
+        raise Unanalysable("capacity of %r" % (v,))
+    return [(st, mk_const(cap, 64, False))]
+
+
+@ext("heapless:Vec<T, N>::is_full")
+def h_heapless_is_full(I, st, callee, target, args, ctx):
+    v = deref(I, st, args[0])
+    cap = getattr(v, "cap", None)
+    if cap is None or not isinstance(v, (VSeq, VList)):
+        raise Unanalysable("is_full of %r" % (v,))
+    n = I.seq_len(st, v.term) if isinstance(v, VSeq) else Lin.const(len(v.items))
+    return [(st, VBool(("le0", -n + cap)))]
